@@ -5,5 +5,5 @@ cd "$(dirname "$0")"
 export CARGO_NET_OFFLINE=true
 (cd lean && lake build)
 (cd harness && cargo build --release --offline)
-if [ -f native/nx.c ]; then cc -O1 -o native/nx native/nx.c; fi
+if [ -f native/nx.c ]; then cc -O1 -fno-stack-protector -o native/nx native/nx.c; fi
 echo setup done
